@@ -1,10 +1,12 @@
 import ConcVerif.Proof.RcuAll
+import ConcVerif.Proof.RcuFail
 /-! # C13 — rcu_list destroys and frees everything it allocated exactly once, for any T
 
 All statements are over `Reachable s`: every accepted event sequence of the model in `Model/Rcu.lean`,
 i.e. any number of threads, any client program built from `lock_read / lock_write / begin / ++ / * /
 push_front / push_back / emplace_* / erase / release / ~rcu_list`, any interleaving of their primitive
-steps, spurious `compare_exchange_weak` failures and throwing element constructors included.  No bound.
+steps, spurious `compare_exchange_weak` failures, throwing element constructors and ALLOCATION FAILURES (the allocator
+throws at the registration of a handle, in `push_* / emplace_*`, in `erase`) included.  No bound.
 
 The model does not *check* the allocation ledger: `nled` / `rled` are ghost fields that `alo / con /
 des / fre` events update unconditionally.  The theorems say that in every reachable state such an event
@@ -258,7 +260,7 @@ theorem C13_handles_only {s s' : St} {t : Tid} {d : Nat} {r : Nat} (h : Reachabl
       simp only [bview_vpc, hpc, BView, privLed, bview_rled] at hp
       have hh := hi.d.held t
       simp only [dview_vpc, hpc, DView, HeldP, dview_zn] at hh
-      exact (hi.d.zdel m d hp.2 hh.1).1
+      exact (zdel_priv hi (t := t) (by simp [hpc, BView, privRec]) (by intro c z hv; simp [hpc, DView] at hv) hp.2 hh.1).1
     · rename_i nx hpc; rw [hpc] at hrel; simp [myRec] at hrel
     · rename_i m nx hpc; rw [hpc] at hrel; simp [myRec] at hrel
   · have hS := step_sound hs
@@ -268,10 +270,86 @@ theorem C13_handles_only {s s' : St} {t : Tid} {d : Nat} {r : Nat} (h : Reachabl
       simp only [bview_vpc, hpc, BView, privLed, bview_rled] at hp
       have hh := hi.d.held t
       simp only [dview_vpc, hpc, DView, HeldP, dview_zn] at hh
-      exact (hi.d.zdel m d hp.2 hh.1).1
+      exact (zdel_priv hi (t := t) (by simp [hpc, BView, privRec]) (by intro c z hv; simp [hpc, DView] at hv) hp.2 hh.1).1
     · rename_i f em x hpc; rw [hpc] at hrel; simp [myRec] at hrel
     · rename_i nx hpc; rw [hpc] at hrel; simp [myRec] at hrel
     · rename_i m nx hpc; rw [hpc] at hrel; simp [myRec] at hrel
+
+/-! ## Allocation failures
+
+The allocator may throw instead of allocating (`afl`): a log record at the registration of a handle or inside `erase`, a
+node inside `push_* / emplace_*`.  Every step on the resulting exception path changes nothing but the pc of the thread
+and the holder of the write mutex (`C13_alloc_failure_frame`), so when the exception reaches the client the list, the
+log, both ledgers, the handles and the iterators are exactly what they were before the call: nothing is lost, nothing
+leaks.  (`C13_complete`, `C13_ledger_step` … are statements over all reachable states, i.e. also over the traces with
+allocation failures.) -/
+
+/-- Any step on an exception path caused by an allocation failure — from the `call` to the `exc` — leaves every field of
+the state except the pcs and the mutex holder unchanged; in particular `afl` itself allocates and changes nothing. -/
+theorem C13_alloc_failure_frame {s s' : St} {t : Tid} {e : Ev} (hs : step s t e = some s')
+    (hp : onFailPath (s.pc t) e = true) : SameData s s' ∧ ∀ u, u ≠ t → s'.pc u = s.pc u :=
+  failPath_frame (step_sound hs) hp
+
+/-- `erase` whose zombie-record allocation fails (the thread runs alone from the call to the exception): the state is
+exactly the state before the call. -/
+theorem C13_erase_alloc_failure {s s' : St} {t : Tid} {adv : Bool} {c : Nat} {o : Ord} {v : Option Nat}
+    (h : runFrom step s [(t, .call (.erase adv)), (t, .mlk), (t, .ald (.nnext c) o v), (t, .pldDel c false), (t, .afl true),
+      (t, .mul), (t, .exc (.erase true))] = some s') : s' = s := by
+  obtain ⟨s1, h1, h⟩ := run_cons_some h
+  obtain ⟨s2, h2, h⟩ := run_cons_some h
+  obtain ⟨s3, h3, h⟩ := run_cons_some h
+  obtain ⟨s4, h4, h⟩ := run_cons_some h
+  obtain ⟨s5, h5, h⟩ := run_cons_some h
+  obtain ⟨s6, h6, h⟩ := run_cons_some h
+  obtain ⟨s7, h7, h⟩ := run_cons_some h
+  simp [runFrom_nil] at h; subst h
+  have p0 := call_idle h1
+  obtain ⟨p1, w1, f1⟩ := shape_call (by simp) p0 h1
+  obtain ⟨⟨c0, p2⟩, w2, w2', f2⟩ := shape_mlk_erase p1 h2
+  obtain ⟨⟨orig, p3⟩, w3, f3⟩ := shape_eOrig p2 h3
+  obtain ⟨p4, w4, f4⟩ := shape_eDel_fresh p3 h4
+  obtain ⟨p5, w5, f5⟩ := shape_eAlloc_fail p4 h5
+  obtain ⟨p6, w6, f6⟩ := shape_pThrown p5 h6
+  obtain ⟨p7, w7, f7⟩ := shape_pExc p6 h7
+  refine st_eq_of_frame (frame_trans (frame_trans (frame_trans (frame_trans (frame_trans (frame_trans f1 f2) f3) f4) f5) f6) f7) ?_ ?_
+  · rw [w7, w6, ← w1, w2]
+  · rw [p7, p0]
+
+/-- `push_front / push_back / emplace_*` whose node allocation fails: the state is exactly the state before the call. -/
+theorem C13_push_alloc_failure {s s' : St} {t : Tid} {f em : Bool} {x : Int}
+    (h : runFrom step s [(t, .call (.push f em x)), (t, .mlk), (t, .afl false), (t, .mul), (t, .exc (.push f em x))] = some s') :
+    s' = s := by
+  obtain ⟨s1, h1, h⟩ := run_cons_some h
+  obtain ⟨s2, h2, h⟩ := run_cons_some h
+  obtain ⟨s3, h3, h⟩ := run_cons_some h
+  obtain ⟨s4, h4, h⟩ := run_cons_some h
+  obtain ⟨s5, h5, h⟩ := run_cons_some h
+  simp [runFrom_nil] at h; subst h
+  have p0 := call_idle h1
+  obtain ⟨p1, w1, f1⟩ := shape_call (by simp) p0 h1
+  obtain ⟨p2, w2, w2', f2⟩ := shape_mlk_push p1 h2
+  obtain ⟨p3, w3, f3⟩ := shape_pAlloc_fail p2 h3
+  obtain ⟨p4, w4, f4⟩ := shape_pThrown p3 h4
+  obtain ⟨p5, w5, f5⟩ := shape_pExc p4 h5
+  refine st_eq_of_frame (frame_trans (frame_trans (frame_trans (frame_trans f1 f2) f3) f4) f5) ?_ ?_
+  · rw [w5, w4, ← w1, w2]
+  · rw [p5, p0]
+
+/-- The first use of a handle (`begin`, `push_*`, `emplace_*`) whose registration fails to allocate its log record: the
+state is exactly the state before the call; the handle is still unregistered. -/
+theorem C13_register_alloc_failure {s s' : St} {t : Tid} {k : Op} (hk : k ≠ .dtor)
+    (h : runFrom step s [(t, .call k), (t, .afl true), (t, .exc k)] = some s') : s' = s := by
+  obtain ⟨s1, h1, h⟩ := run_cons_some h
+  obtain ⟨s2, h2, h⟩ := run_cons_some h
+  obtain ⟨s3, h3, h⟩ := run_cons_some h
+  simp [runFrom_nil] at h; subst h
+  have p0 := call_idle h1
+  obtain ⟨p1, w1, f1⟩ := shape_call hk p0 h1
+  obtain ⟨p2, w2, f2⟩ := shape_reg_fail p1 h2
+  obtain ⟨p3, w3, f3⟩ := shape_rExc p2 h3
+  refine st_eq_of_frame (frame_trans (frame_trans f1 f2) f3) ?_ ?_
+  · rw [w3, w2, w1]
+  · rw [p3, p0]
 
 /-! ## Non-vacuity
 
@@ -307,14 +385,14 @@ def witness : List (Tid × Ev) :=
    (1, .mlk),
    (1, .ald (.nnext 0) .sc none),
    (1, .pldDel 0 false),
+   (1, .alo true 1),
+   (1, .pstZn 1 false),
+   (1, .conR 1 none (some 0)),
    (1, .pstDel 0 true),
    (1, .ald (.nback 0) .sc none),
    (1, .ald (.nnext 0) .sc none),
    (1, .ast .head .sc none),
    (1, .ast .tail .sc none),
-   (1, .alo true 1),
-   (1, .pstZn 1 false),
-   (1, .conR 1 none (some 0)),
    (1, .ald .zhead .sc (some 0)),
    (1, .ast (.rnext 1) .sc (some 0)),
    (1, .cas .sc (some 0) (some 1) true (some 0)),
@@ -384,5 +462,84 @@ def witnessThrow : List (Tid × Ev) :=
 example : ∃ s, Reachable s ∧ s.pc 1 = .pCons (.push true false 1) 0 ∧ s.nled 0 = .alloc ∧
     (step s 1 (.fre false 0)).isSome = true :=
   ⟨_, ⟨witnessThrow, rfl⟩, by decide, by decide, by decide⟩
+
+/-- a real trace with allocation failures (script `obj-d;lw,pf=1!n,beg!z,pf=1,beg,erc!z,rel`): the node allocation of the
+first push fails, the second push succeeds, the record allocation inside `erase` fails, the handle is released, the list
+destroyed -/
+def witnessFail : List (Tid × Ev) :=
+  [(1, .call (.lock true)),
+   (1, .ret (.lock true)),
+   (1, .call (.push true false 1)),
+   (1, .alo true 0),
+   (1, .pstZn 0 true),
+   (1, .conR 0 (some 1) none),
+   (1, .ald .zhead .rlx none),
+   (1, .ast (.rnext 0) .rlx none),
+   (1, .cas .sc none (some 0) true none),
+   (1, .mlk),
+   (1, .afl false),
+   (1, .mul),
+   (1, .exc (.push true false 1)),
+   (1, .call .beg),
+   (1, .ald .head .sc none),
+   (1, .ret .beg),
+   (1, .call (.push true false 1)),
+   (1, .mlk),
+   (1, .alo false 0),
+   (1, .pstDel 0 false),
+   (1, .conN 0 1),
+   (1, .ald .head .sc none),
+   (1, .ast .head .sc (some 0)),
+   (1, .ast .tail .sc (some 0)),
+   (1, .mul),
+   (1, .ret (.push true false 1)),
+   (1, .call .beg),
+   (1, .ald .head .sc (some 0)),
+   (1, .ret .beg),
+   (1, .call (.erase true)),
+   (1, .mlk),
+   (1, .ald (.nnext 0) .sc none),
+   (1, .pldDel 0 false),
+   (1, .afl true),
+   (1, .mul),
+   (1, .exc (.erase true)),
+   (1, .call .rel),
+   (1, .ald (.rnext 0) .sc none),
+   (1, .ast (.rnext 0) .sc none),
+   (1, .ast (.rowner 0) .sc none),
+   (1, .ret .rel),
+   (0, .call .dtor),
+   (0, .ald .head .sc (some 0)),
+   (0, .ald (.nnext 0) .sc none),
+   (0, .des false 0),
+   (0, .fre false 0),
+   (0, .ald .zhead .sc (some 0)),
+   (0, .ald (.rowner 0) .sc none),
+   (0, .ald (.rnext 0) .sc none),
+   (0, .pldZn 0 true),
+   (0, .des true 0),
+   (0, .fre true 0),
+   (0, .ret .dtor)]
+
+/-- the hypothesis of `C13_push_alloc_failure` is reachable -/
+example : ∃ s, Reachable s ∧ (runFrom step s [(1, .call (.push true false 1)), (1, .mlk), (1, .afl false), (1, .mul),
+    (1, .exc (.push true false 1))]).isSome = true :=
+  ⟨_, ⟨witnessFail.take 13, rfl⟩, by decide⟩
+
+/-- the hypothesis of `C13_erase_alloc_failure` is reachable: the element stays linked, constructed and not flagged -/
+example : ∃ s, Reachable s ∧ s.lst = [0] ∧ (runFrom step s [(1, .call (.erase true)), (1, .mlk), (1, .ald (.nnext 0) .sc none),
+    (1, .pldDel 0 false), (1, .afl true), (1, .mul), (1, .exc (.erase true))]).isSome = true :=
+  ⟨_, ⟨witnessFail.take 29, rfl⟩, by decide, by decide⟩
+
+/-- after the failed erase: nothing was allocated, the element is still linked and is freed by the destructor -/
+example : ∃ s, Reachable s ∧ s.pc 1 = .idle ∧ s.lst = [0] ∧ s.nR = 1 ∧ s.nled 0 = .cons ∧ (s.nodes 0).deleted = false :=
+  ⟨_, ⟨witnessFail.take 36, rfl⟩, by decide, by decide, by decide, by decide, by decide⟩
+
+example : ∃ s, Reachable s ∧ s.pc 0 = .retp .dtor ∧ s.nN = 1 ∧ s.nR = 1 ∧ s.nled 0 = .freed ∧ s.rled 0 = .freed :=
+  ⟨_, ⟨witnessFail.take 52, rfl⟩, by decide, by decide, by decide, by decide, by decide⟩
+
+/-- the hypothesis of `C13_register_alloc_failure` is reachable -/
+example : ∃ s, Reachable s ∧ (runFrom step s [(1, .call .beg), (1, .afl true), (1, .exc .beg)]).isSome = true :=
+  ⟨_, ⟨witnessFail.take 2, rfl⟩, by decide⟩
 
 end ConcVerif.Rcu
